@@ -156,17 +156,38 @@ func pipelineChangeClass(a, b string) string {
 			field = m[1]
 		}
 	}
-	cls := nt + "." + field
+	where := nt + "." + field
+	// class first, place second: a known-finding key can then name the class with a prefix
 	if strings.Contains(x[:i], "lambda{") && strings.LastIndex(x[:i], "lambda{") > strings.LastIndex(x[:i], "} ") {
 		lx, ly := x[strings.LastIndex(x[:i], "lambda{"):], y[strings.LastIndex(x[:i], "lambda{"):]
 		if k := jsonClass(lx, ly); k != "" {
-			return cls + k
+			return "lambda-" + k[1:] + "/" + where
 		}
 		if k := formatChangeClass(lx, ly); k != "" {
-			return cls + k
+			return "lambda-" + k[1:] + "/" + where
+		}
+		return "lambda/" + where
+	}
+	if strings.HasPrefix(x[i:], "int64:") && strings.HasPrefix(y[i:], "float64:") {
+		return "int-as-float/" + where
+	}
+	if field == "quiet" {
+		return "quiet/" + nt
+	}
+	if nt == "InfluxQLNode" && (field == "Probe" || field == "FieldsAndTags") {
+		// what the node's reducers compute / select differs: the parameters the node was created with
+		return "influxql-parameters/" + field
+	}
+	// the value the difference lies in
+	if ms := reFieldName.FindAllStringSubmatchIndex(x[:i], -1); len(ms) > 0 {
+		v := x[ms[len(ms)-1][1]:]
+		for _, z := range []string{`"" `, "0 ", "time.Duration:0 ", "false "} {
+			if strings.HasPrefix(v, z) && !strings.HasPrefix(y[ms[len(ms)-1][1]:], z) {
+				return "zero-value-lost/" + where
+			}
 		}
 	}
-	return cls
+	return "field/" + where
 }
 
 func pipelineJSONErrorClass(msg string) string {
